@@ -68,12 +68,19 @@ def ret_bpm(r):
     return integer(r["bpm"])
 
 
-def play_rec(op, prog, fn):
+def play_rec(op, prog, fn, extra=None, warm=False):
     s, o = session(prog["bpm"])
     box = {}
+    if warm:      # the same sequencer object has already played this once: the second playback is recorded
+        try:
+            fn(s)
+        except Exception:
+            pass
+        del s.log[:]
+        del o.log[:]
     def f():
         box["ret"] = ret_bpm(fn(s))
-    r = call(op, {}, f, lambda _: 0)
+    r = call(op, dict(extra or {}), f, lambda _: 0)
     r["prog"] = prog
     r["events"] = s.log
     r["observer"] = o.log
@@ -102,6 +109,11 @@ def run_case(c):
         chans = list(range(1, n + 1))
         R.append(play_rec("play_Composition", p, lambda s: s.play_Composition(comp, None, bpm)))
         R.append(play_rec("play_Tracks", p, lambda s: s.play_Tracks(comp.tracks, chans, bpm)))
+        # a sequencer that is used again, and tracks that share one channel
+        R.append(play_rec("play_Tracks", p, lambda s: s.play_Tracks(comp.tracks, chans, bpm), {"warm": True}, warm=True))
+        R.append(play_rec("play_Composition", p, lambda s: s.play_Composition(comp, None, bpm), {"warm": True}, warm=True))
+        same = [5] * n
+        R.append(play_rec("play_Tracks", p, lambda s: s.play_Tracks(comp.tracks, same, bpm), {"chans": same}))
         for bi in range(len(p["tracks"][0]["bars"])):
             sub = dict(p, tracks=[dict(t, bars=[t["bars"][bi]]) for t in p["tracks"]])
             R.append(play_rec("play_Bars", sub, lambda s: s.play_Bars([tr.bars[bi] for tr in comp.tracks], chans, bpm)))
